@@ -1,6 +1,8 @@
 //! `hx builtins`: the built-in FixedStatusAdapter and FixedLocalizationAdapter driven with the cases exported from
 //! spec/Builtins.tla; records what they answered (judged by Trace_Builtins.tla).
 use passage_adapters::localization::LocalizationAdapter;
+use passage_adapters::authentication::AuthenticationAdapter;
+use passage_adapters::discovery::DiscoveryAdapter;
 use passage_adapters::status::StatusAdapter;
 use passage_adapters::{FixedLocalizationAdapter, FixedStatusAdapter, ServerStatus};
 use serde_json::{Value, json};
@@ -32,11 +34,61 @@ pub fn main(args: &[String]) {
     for (pos, line) in lines.iter().chain(lines.iter().rev()).enumerate() {
         let pass = if pos < n { "fwd" } else { "rev" };
         let rec: Value = serde_json::from_str(line).expect("json");
-        if pass == "rev" && rec["kind"] == "status" {
+        if pass == "rev" && rec["kind"] != "loc" {
             continue;
         }
         let c = &rec["case"];
-        let got = if rec["kind"] == "status" {
+        let got = if rec["kind"] == "auth" {
+            // identities behind the labels; the adapters are asked without any service behind them
+            let ident = |l: &str| -> (String, uuid::Uuid) {
+                match l {
+                    "steve" => ("Steve".to_string(), uuid::Uuid::from_u128(0x1111_1111_1111_4111_8111_1111_1111_1111)),
+                    "alex" => ("Alex".to_string(), uuid::Uuid::from_u128(0x2222_2222_2222_4222_8222_2222_2222_2222)),
+                    "service" => ("FromConfig".to_string(), uuid::Uuid::from_u128(0x9999_9999_9999_4999_8999_9999_9999_9999)),
+                    _ => (String::new(), uuid::Uuid::nil()),
+                }
+            };
+            let label = |name: &str, id: &uuid::Uuid| -> String {
+                for l in ["steve", "alex", "service", "nil"] {
+                    let (n, u) = ident(l);
+                    if n == name && u == *id {
+                        return l.to_string();
+                    }
+                }
+                format!("other:{name}/{id}")
+            };
+            let (cn, cu) = ident(c["claimed"]["who"].as_str().unwrap_or(""));
+            let (fnm, fu) = ident(c["fixed"]["who"].as_str().unwrap_or(""));
+            let props: Vec<passage_adapters::authentication::ProfileProperty> = (0..c["fixed"]["props"].as_u64().unwrap_or(0))
+                .map(|i| passage_adapters::authentication::ProfileProperty { name: format!("p{i}"), value: format!("v{i}"), signature: if i == 0 { None } else { Some("sig".into()) } })
+                .collect();
+            let fixed = passage_adapters::authentication::Profile { id: fu, name: fnm, properties: props, profile_actions: vec![] };
+            let client: std::net::SocketAddr = "192.0.2.1:1234".parse().unwrap();
+            let r = if c["kind"] == "disabled" {
+                rt.block_on(passage_adapters::DisabledAuthenticationAdapter::new().authenticate(&client, ("h", 1), 770, (&cn, &cu), b"secret", b"key"))
+            } else {
+                rt.block_on(passage_adapters::FixedAuthenticationAdapter::new(fixed).authenticate(&client, ("h", 1), 770, (&cn, &cu), b"secret", b"key"))
+            };
+            match r {
+                Ok(p) => json!({"ok": true, "who": label(&p.name, &p.id), "props": p.properties.len()}),
+                Err(e) => json!({"ok": false, "who": format!("error:{e}"), "props": -1}),
+            }
+        } else if rec["kind"] == "discover" {
+            let targets: Vec<passage_adapters::Target> = parts(&c["targets"])
+                .iter()
+                .enumerate()
+                .map(|(i, id)| passage_adapters::Target { identifier: id.clone(), address: format!("10.0.0.{}:25565", i + 1).parse().unwrap(), meta: Default::default() })
+                .collect();
+            let a = passage_adapters::FixedDiscoveryAdapter::new(targets);
+            let mut lists = vec![];
+            for _ in 0..c["calls"].as_u64().unwrap_or(1) {
+                lists.push(match rt.block_on(a.discover()) {
+                    Ok(ts) => ts.iter().map(|t| t.identifier.clone()).collect::<Vec<_>>(),
+                    Err(e) => vec![format!("error:{e}")],
+                });
+            }
+            json!({"lists": lists})
+        } else if rec["kind"] == "status" {
             let status = if c["configured"].as_bool().unwrap_or(false) { Some(ServerStatus::default()) } else { None };
             let g = |k: &str| c[k].as_i64().unwrap_or(0) as i32;
             let a = FixedStatusAdapter::new(status, g("preferred"), g("min"), g("max"));
